@@ -33,6 +33,9 @@ import Nstd.Future.Handshake
                           `destructor_is_translated`, `set_is_translated` (Future<void>::set of Future.cpp), `result_conversion_is_translated`,
                           `proc_order_is_translated`, `fut_ctor_is_default`, `state_enum_is_translated`; `flags_after_join_translated`:
                           the last sentence of C10 stated with the translated `isFinished()` / `isAborted()`.
+    startProc             `start_proc_is_translated` : `cRdTp, cSpin, cRdTp2, cSwapTp, cUnlockTp` are the translated micro-steps 0–4 (lazy pool under
+                          the spin lock), `cJoin` the call site of `join()` (`start_call_site`), `cArm` the composition of the two arming stores
+                          (either order) + `threadPool->run(proc, args)`.
     Signal.cpp            `signal_set_is_translated`, `signal_reset_is_translated`, `signal_wait_is_translated` : `Signal::set / reset / wait()`
                           (pthread branch; `pthread_cond_wait` = release+enqueue, wake, re-lock) are the frames `sSet* / sRst* / sWait*`.
     re-polling            `failed_pop_is_pure`, `fastsignal_set_when_already_set_is_a_no_op` (any re-poll budget; C10-h5).
@@ -649,6 +652,80 @@ theorem flags_after_join_translated {cfg : Config} {s : State} (hwf : cfg.WellFo
   · simp [h1]
   · simp [h1, h2 h1]
 
+/-! ## `Future<void>::startProc` — lazily created pool under the spin lock, `join()`, arming, `run` -/
+
+/-- the part of the model state `startProc` of future `f` works on -/
+def toStart (s : State) (f : Nat) : StartSt :=
+  { tp := if s.tp then 1 else 0, tplock := s.tplock, created := false, fut := s.futs f }
+
+/-- the frame of a program counter of the translated `startProc` for call record `c` (future `f`); `cJoin c` is the model's call-site
+    frame of `join()` with the return address `cArm c` (pc 5) -/
+def startPc (c : Nat) : Nat → List Frame
+  | 1 => [.cSpin c]
+  | 2 => [.cRdTp2 c]
+  | 3 => [.cSwapTp c]
+  | 4 => [.cUnlockTp c]
+  | _ => []
+
+/-- frames a translated step of `startProc` leaves (`join()` with return address 5 = the model's `cJoin c`; `run` = `runStart`) -/
+def startFrames (c : Nat) {L R : Type} : GStep L R → List Frame
+  | .goto n _ => startPc c n
+  | .call [.futJoin] (some 5) _ => [.cJoin c]
+  | .call [.poolRun] none _ => [.runStart (some c)]
+  | _ => []
+
+theorem start_call_site (s : State) (t : Tid) (th : Thread) (c : Nat) (r : CallRec) (hc : s.calls c = some r) :
+    (stepFrame s t th (.cJoin c)).1 = setThread s t (th.cont [.join r.fut, .cArm c]) := by
+  simp [stepFrame, hc]
+
+/-- **`start_proc_is_translated`** — the frames `cRdTp, cSpin, cRdTp2, cSwapTp, cUnlockTp` are the translated micro-steps 0–4 (same
+    `_threadPool` / `_threadPoolLock` afterwards, a pool is constructed exactly when the translated step says so, same next frame), and
+    `cArm` is the composition of the two arming stores 5 and 6 (in either order) followed by `threadPool->run(proc, args)`. -/
+theorem start_proc_is_translated (s : State) (t : Tid) (th : Thread) (c f : Nat) (L : StartProcL) :
+    -- 0: read of `_threadPool`
+    ((stepFrame s t th (.cRdTp c)).1.threads t = some (th.cont (startFrames c (startProcStep (toStart s f) 0 L).2)) ∧
+      (stepFrame s t th (.cRdTp c)).1.tp = s.tp ∧ (startProcStep (toStart s f) 0 L).1 = toStart s f) ∧
+    -- 1: test-and-set of the spin lock
+    ((stepFrame s t th (.cSpin c)).1.threads t = some (th.cont (startFrames c (startProcStep (toStart s f) 1 L).2)) ∧
+      (stepFrame s t th (.cSpin c)).1.tplock = (startProcStep (toStart s f) 1 L).1.tplock) ∧
+    -- 2: second read; the pool is constructed when it is still null
+    ((stepFrame s t th (.cRdTp2 c)).1.threads t = some (th.cont (startFrames c (startProcStep (toStart s f) 2 L).2)) ∧
+      ((startProcStep (toStart s f) 2 L).1.created = true ↔ s.tp = false) ∧
+      (s.tp = false → (stepFrame s t th (.cRdTp2 c)).1.pool = some (mkPool 0x100 0 4))) ∧
+    -- 3: publication of the pool (the local holds the new pointer)
+    (L.v0 = 1 →
+      (stepFrame s t th (.cSwapTp c)).1.threads t = some (th.cont (startFrames c (startProcStep (toStart s f) 3 L).2)) ∧
+      (if (stepFrame s t th (.cSwapTp c)).1.tp then 1 else 0) = (startProcStep (toStart s f) 3 L).1.tp) ∧
+    -- 4: release of the spin lock, then join()
+    ((stepFrame s t th (.cUnlockTp c)).1.threads t = some (th.cont (startFrames c (startProcStep (toStart s f) 4 L).2)) ∧
+      (stepFrame s t th (.cUnlockTp c)).1.tplock = (startProcStep (toStart s f) 4 L).1.tplock) ∧
+    -- 5, 6: the two arming stores and run()
+    (∀ r, s.calls c = some r → r.fut = f →
+      match startProcStep (toStart s f) 5 L with
+      | (x5, .goto 6 L5) =>
+          ((stepFrame s t th (.cArm c)).1.futs f).joinable = (startProcStep x5 6 L5).1.fut.joinable ∧
+          ((stepFrame s t th (.cArm c)).1.futs f).aborting = (startProcStep x5 6 L5).1.fut.aborting ∧
+          (startProcStep x5 6 L5).1.fut.joinable = true ∧ (startProcStep x5 6 L5).1.fut.aborting = false ∧
+          (stepFrame s t th (.cArm c)).1.threads t = some (th.cont (startFrames c (startProcStep x5 6 L5).2))
+      | _ => False) := by
+  refine ⟨⟨?_, ?_, ?_⟩, ⟨?_, ?_⟩, ⟨?_, ?_, ?_⟩, ?_, ⟨?_, ?_⟩, ?_⟩
+  · cases h : s.tp <;> simp [stepFrame, h, toStart, startProcStep, startFrames, startPc, setThread, upd]
+  · cases h : s.tp <;> simp [stepFrame, h, setThread]
+  · simp [startProcStep]; split <;> rfl
+  · by_cases h : s.tplock = 0 <;> simp [stepFrame, h, toStart, startProcStep, startFrames, startPc, setThread, upd]
+  · by_cases h : s.tplock = 0 <;> simp [stepFrame, h, toStart, startProcStep, setThread]
+  · cases h : s.tp <;> simp [stepFrame, h, toStart, startProcStep, startFrames, startPc, setThread, upd]
+  · cases h : s.tp <;> simp [h, toStart, startProcStep]
+  · intro h; simp [stepFrame, h, setThread]
+  · intro h1
+    refine ⟨by simp [stepFrame, toStart, startProcStep, startFrames, startPc, setThread, upd], ?_⟩
+    simp [stepFrame, toStart, startProcStep, h1, setThread]
+  · simp [stepFrame, toStart, startProcStep, startFrames, startPc, setThread, upd]
+  · simp [stepFrame, toStart, startProcStep, setThread]
+  · intro r hc hf
+    subst hf
+    simp [startProcStep, stepFrame, hc, toStart, startFrames, setThread, setFut, upd]
+
 /-! ## `Signal::set / reset / wait()` (src/Signal.cpp, pthread branch) on the frames `sSet* / sRst* / sWait*` -/
 
 /-- the frame of program counter `n` of the translated `Signal::set` on signal `σ` (`gen` = the incarnation ghost the model's broadcast frame carries) -/
@@ -823,7 +900,7 @@ theorem size_body_never_underflows {α : Type} {cap : Nat} (hc : 0 < cap) {s s' 
 OPEN:
   * NOT translated (hand translation in Model.lean, tied by the step-by-step replay only): the effect statements of `ThreadPool::run` after its
     decision (the spawn / retire branches under the mutex, the purge of the context list, `Thread::start` and its failure branch), `~ThreadPool`
-    (counted loop over `_threadCount` + iterator loop of joins), `startProc` (lazy pool under the spin lock, arming); of `Signal.cpp` the constructor / destructor / `wait(timeout)`.
+    (counted loop over `_threadCount` + iterator loop of joins), of `Signal.cpp` the constructor / destructor / `wait(timeout)`.
   * the semantics the translator gives to the C++ subset (one micro-step per shared access with the thread-local run-on, ring tickets as `Nat`,
     mask arithmetic, `(usize)-1` as `none`, the destructor of the trivially destructible `Job`, `Atomic::*`) is an assumption (MANIFEST note);
     `worker_loop_is_translated` / `run_push_loop_is_translated` compare frames after expanding the model's call-site frames
